@@ -256,6 +256,9 @@ let rule_name = function
   | R12_found_not_successor -> "found_not_successor" | R12_found_not_next_token -> "found_not_next_token"
   | R12_successor_changed_without_ready_reply -> "successor_changed_without_ready_reply" | R12_sweep_bound -> "sweep_bound"
   | R13_high_prio_inside_hold_time -> "high_prio_inside_hold_time"
+  | R12_post_claim_scan_incomplete -> "post_claim_scan_incomplete"
+  | R15_asked_after_all_declined -> "asked_after_all_declined" | R15_not_passed_after_all_declined -> "not_passed_after_all_declined"
+  | R15_passed_before_all_declined -> "passed_before_all_declined" | R15_cycle_after_hold_time -> "cycle_after_hold_time"
   | R13_low_prio_after_hold_time -> "low_prio_after_hold_time" | R13_second_cycle_after_hold_time -> "second_cycle_after_hold_time"
   | R15_transmit_without_token -> "transmit_without_token" | R15_transmit_while_outstanding -> "transmit_while_outstanding"
   | R15_round_robin -> "round_robin" | R15_reply_not_requested -> "reply_not_requested" | R15_reply_invalid -> "reply_invalid"
